@@ -359,6 +359,14 @@ fn get_min_fold_count_limit(carrier: &mut QueryCarrier, fold: &IRFold) -> Option
     result
 }
 
+/// Whether the component, or any component folded inside it, produces any outputs.
+fn component_has_outputs(component: &IRQueryComponent) -> bool {
+    !component.outputs.is_empty()
+        || component.folds.values().any(|fold| {
+            !fold.fold_specific_outputs.is_empty() || component_has_outputs(&fold.component)
+        })
+}
+
 fn collect_fold_elements<'query, Vertex: Clone + Debug + 'query>(
     mut iterator: ContextIterator<'query, Vertex>,
     max_fold_count_limit: &Option<usize>,
@@ -505,21 +513,36 @@ fn compute_fold<'query, AdapterT: Adapter<'query> + 'query>(
     // of the fold, we can stop computing the rest of the fold after seeing we have 11 elements.
     let min_fold_size =
         if let Some(min_fold_size) = get_min_fold_count_limit(carrier, fold.as_ref()) {
-            let no_outputs_in_fold = fold.component.outputs.is_empty();
+            // Outputs anywhere inside the fold, including inside folds nested within it,
+            // need all of the fold's elements.
+            let no_outputs_in_fold = !component_has_outputs(&fold.component);
             let has_output_on_fold_count =
                 fold.fold_specific_outputs.values().any(|x| *x == FoldSpecificFieldKind::Count);
+
+            // A tag on this fold's count may be used by filters on the parent component's
+            // vertices, by post-fold filters of the parent component's other folds,
+            // or inside those folds, in which case they import it.
+            let is_tag_on_this_fold_count = |field_ref: &FieldRef| {
+                let FieldRef::FoldSpecificField(tagged_fold_count) = field_ref else {
+                    return false;
+                };
+
+                tagged_fold_count.fold_root_vid == fold.to_vid
+                    && tagged_fold_count.fold_eid == fold.eid
+                    && tagged_fold_count.kind == FoldSpecificFieldKind::Count
+            };
             let has_tag_on_fold_count = parent_component.vertices.values().any(|vertex| {
                 vertex.filters.iter().any(|filter| {
-                    let Some(Argument::Tag(FieldRef::FoldSpecificField(tagged_fold_count))) =
-                        filter.right()
-                    else {
-                        return false;
-                    };
-
-                    tagged_fold_count.fold_root_vid == fold.to_vid
-                        && tagged_fold_count.fold_eid == fold.eid
-                        && tagged_fold_count.kind == FoldSpecificFieldKind::Count
+                    filter.right().and_then(Argument::as_tag).is_some_and(is_tag_on_this_fold_count)
                 })
+            }) || parent_component.folds.values().any(|other_fold| {
+                other_fold.imported_tags.iter().any(is_tag_on_this_fold_count)
+                    || other_fold.post_filters.iter().any(|filter| {
+                        filter
+                            .right()
+                            .and_then(Argument::as_tag)
+                            .is_some_and(is_tag_on_this_fold_count)
+                    })
             });
 
             if no_outputs_in_fold && !has_output_on_fold_count && !has_tag_on_fold_count {
